@@ -27,6 +27,7 @@ def grid_jobs(ctx, test, configs, shards, budget, extra_env=None, prop=None):
 E1_SCENARIOS_QUICK = [
     "S1-put-get-get", "S2-ac-overwrite", "S3-evict-vs-read", "S4-corrupt-get-get",
     "S5-corrupt-get-put", "S6-corrupt-get-evict-reput", "S7-three-puts-tight", "S10-contains-vs-overwrite",
+    "S11-commit-refused-by-reservation", "S12-get-vs-two-overwrites",
 ]
 ZSTD_ONLY = {"S4-corrupt-get-get", "S5-corrupt-get-put", "S6-corrupt-get-evict-reput"}
 
@@ -124,7 +125,7 @@ def check_C03(ctx):
     th = ctx.thorough()
     jobs = e2lru_jobs(ctx, "C03", 6 if th else 4, 1500 if th else 100)
     jobs += e2cache_jobs(ctx, "C03", 4 if th else 3, 1500 if th else 100, 8 if th else 2)
-    jobs += e1_jobs(ctx, "C03", ["S3-evict-vs-read", "S5-corrupt-get-put", "S7-three-puts-tight"], 3 if th else 2, 2 if th else 1, 1200 if th else 100, oracle="C03@")
+    jobs += e1_jobs(ctx, "C03", ["S3-evict-vs-read", "S5-corrupt-get-put", "S7-three-puts-tight", "S11-commit-refused-by-reservation"], 3 if th else 2, 2 if th else 1, 1200 if th else 100, oracle="C03@")
     return dict(level="model_checking", jobs=jobs,
                 rule="explicit-state BFS over operation sequences on the real SizedLRU and on a real disk cache (accounting equation, reserved==0, Stats()==index on every transition) plus all preemption-bounded schedules of three concurrent scenarios (equation at every scheduling point); distinct = distinct canonical states / distinct observed histories",
                 assumptions=E2_ASSUME + E1_ASSUME)
@@ -133,7 +134,7 @@ def check_C03(ctx):
 def check_C04(ctx):
     th = ctx.thorough()
     jobs = e2cache_jobs(ctx, "C04", 4 if th else 3, 1500 if th else 100, 8 if th else 2)
-    jobs += e1_jobs(ctx, "C04", ["S2-ac-overwrite", "S3-evict-vs-read", "S6-corrupt-get-evict-reput", "S7-three-puts-tight"], 3 if th else 2, 2 if th else 1, 1200 if th else 100, oracle="C04@")
+    jobs += e1_jobs(ctx, "C04", ["S2-ac-overwrite", "S3-evict-vs-read", "S6-corrupt-get-evict-reput", "S7-three-puts-tight", "S11-commit-refused-by-reservation", "S12-get-vs-two-overwrites"], 3 if th else 2, 2 if th else 1, 1200 if th else 100, oracle="C04@")
     return dict(level="model_checking", jobs=jobs,
                 rule="explicit-state BFS over operation sequences (incl. uploads failing by hash, short reader, reader error, trailing byte, oversize, and faulty backend fetches) on a real disk cache: directory listing == index after every transition once deletions drained; plus the same at quiescence of every explored schedule of four concurrent scenarios",
                 assumptions=E2_ASSUME + E1_ASSUME)
